@@ -17,6 +17,7 @@ func init() {
 		r.floor("R3", 10)
 		r.floor("R4", 6)
 		r.floor("R6", 8)
+		r.floor("R8", 4)
 		r.floor("R7", 1)
 	}, checkC06)
 }
@@ -387,7 +388,30 @@ func checkC06(c *Ctx, r *Report) {
 					ctor = ctor.Parent()
 				}
 				r.fn(ctor)
-				key := rel + ":completion-callback-of(" + c.txRoleOf(typeStr(ctor.Signature.Results().At(0).Type())) + "):unconditional-delete"
+				// what completes the transaction on its own (a timer: retry budget / time limit) is part of the finding:
+				// an unconditional delete in the callback of a transaction that only ever completes from the receive
+				// loop cannot fire late; once a timer drives it, it can
+				base := "no-timer"
+				allInstrs(ctor, func(j ssa.Instruction) {
+					if cj, ok := j.(ssa.CallInstruction); ok {
+						switch calleeName(cj.Common()) {
+						case pkTrans + ".NewRetryTransaction":
+							base = "retry-timer"
+						case pkTrans + ".NewTimedTransaction":
+							base = "time-limit"
+						}
+					}
+				})
+				if rt := ctor.Signature.Results(); rt.Len() == 1 {
+					if st := structOf(rt.At(0).Type()); st != nil {
+						for k := 0; k < st.NumFields(); k++ {
+							if typeIs(derefType(st.Field(k).Type()), "time", "Timer") && base == "no-timer" {
+								base = "own-timer"
+							}
+						}
+					}
+				}
+				key := rel + ":completion-callback-of(" + c.txRoleOf(typeStr(ctor.Signature.Results().At(0).Type())) + "," + base + "):unconditional-delete"
 				if ctor.Signature.Results().Len() != 1 {
 					key = fnKey(ctor) + ":unconditional-delete"
 				}
@@ -442,6 +466,51 @@ func checkC06(c *Ctx, r *Report) {
 		}
 	}
 	c.checkStoredExchangeCompletable(r, "R6")
+	// R8: the store is a container: none of its methods completes (Fail/Success) a transaction it holds or replaces.
+	// Completion runs the transaction's finally callback, which deletes by key - the key under which the NEW
+	// transaction was just stored
+	nS := 0
+	for _, f := range c.repoFuncs("transactions") {
+		if f.Signature.Recv() == nil || !typeIs(f.Signature.Recv().Type(), pkTrans, "TransactionStore") {
+			continue
+		}
+		nS++
+		bad := ""
+		seenF := map[*ssa.Function]bool{}
+		var scan func(g *ssa.Function, d int)
+		scan = func(g *ssa.Function, d int) {
+			if seenF[g] || d > 3 || g.Blocks == nil {
+				return
+			}
+			seenF[g] = true
+			allInstrs(g, func(i ssa.Instruction) {
+				ci, ok := i.(ssa.CallInstruction)
+				if !ok {
+					return
+				}
+				cc := ci.Common()
+				if cc.IsInvoke() && (cc.Method.Name() == "Fail" || cc.Method.Name() == "Success") {
+					bad = c.instrPos(i)
+				}
+				if h := staticCallee(cc); h != nil && fnPkgPath(h) == pkTrans {
+					if h.Name() == "Fail" || h.Name() == "Success" {
+						bad = c.instrPos(i)
+					}
+					scan(h, d+1)
+				}
+			})
+			for _, cl := range closuresIn(g) {
+				scan(cl, d+1)
+			}
+		}
+		scan(f, 0)
+		r.fn(f)
+		r.cond(bad == "", "R8", fnKey(f)+":store-does-not-complete", c.pos(f.Pos()), "does not complete any transaction",
+			"a method of the transaction store completes a transaction ("+bad+"): completion runs that transaction's finally callback, which deletes the store entry under its key - the entry that now belongs to the exchange that replaced it (or, under the store's lock, deadlocks)")
+	}
+	if nS == 0 {
+		r.undecided("R8", "TransactionStore", "-", "no method of TransactionStore found")
+	}
 	importRules(c, r, "C17", map[string]string{"R3": "R7"})
 }
 
